@@ -4,6 +4,7 @@ import (
 	"fmt"
 	"math/big"
 	"math/bits"
+	"sort"
 	"strings"
 
 	sdkmath "cosmossdk.io/math"
@@ -474,6 +475,64 @@ func runC08(rc *RunCtx) {
 			}
 		}
 	}
+	// (2b) a configured limit is the limit until the token controller sets another one: registry maintenance in between
+	// (every pair of the token unlinked, pairs linked and unlinked again, messengers, attesters, roles, flags, sizes,
+	// limits of other tokens) leaves limit accepted and limit + 1 rejected
+	for mi, lim := range []*big.Int{big.NewInt(1), big.NewInt(777), Two64} {
+		for vi, via := range []string{"", "uusdc"} {
+			if (mi*2+vi)%rc.NShards != rc.Shard {
+				continue
+			}
+			e, err := c08Engine(rc, lim, 0, nil, true, false, via)
+			if err != nil {
+				rc.Cov.Inconclusive(err.Error())
+				continue
+			}
+			probe := func(step string) {
+				for _, withCaller := range []bool{false, true} {
+					run(e, c08Deposit(e, P2Limit, withCaller, new(big.Int).Add(lim, big.NewInt(1)), 3*mi, "uusdc"), P2Limit, withCaller, "C08_maintenance")
+					run(e, c08Deposit(e, 0, withCaller, lim, 3*mi, "uusdc"), 0, withCaller, "C08_maintenance")
+				}
+				rc.Cov.Cell("C08_maintenance_steps", step)
+			}
+			admin := func(step string, m sdk.Msg) {
+				e.Exec(Tx{Msgs: msgs1(m), Note: "C08 maintenance: " + step})
+				probe(step)
+			}
+			probe("start")
+			type pk struct {
+				d uint32
+				t string
+			}
+			var pairs []pk
+			for k := range e.M.Pairs {
+				pairs = append(pairs, pk{k.Domain, k.Token})
+			}
+			sort.Slice(pairs, func(i, j int) bool { return pairs[i].d < pairs[j].d || (pairs[i].d == pairs[j].d && pairs[i].t < pairs[j].t) })
+			for _, k := range pairs {
+				lt := e.M.Pairs[pairKey{k.d, k.t}]
+				admin("unlink-pair", &ct.MsgUnlinkTokenPair{From: e.M.TC, RemoteDomain: k.d, RemoteToken: []byte(k.t), LocalToken: lt})
+			}
+			admin("link-pair", &ct.MsgLinkTokenPair{From: e.M.TC, RemoteDomain: 1, RemoteToken: Token(0), LocalToken: "uusdc"})
+			admin("link-pair-other-token", &ct.MsgLinkTokenPair{From: e.M.TC, RemoteDomain: 2, RemoteToken: Token(1), LocalToken: "ueure"})
+			admin("unlink-pair-again", &ct.MsgUnlinkTokenPair{From: e.M.TC, RemoteDomain: 1, RemoteToken: Token(0), LocalToken: "uusdc"})
+			admin("unlink-pair-other-token", &ct.MsgUnlinkTokenPair{From: e.M.TC, RemoteDomain: 2, RemoteToken: Token(1), LocalToken: "ueure"})
+			admin("limit-of-another-token", &ct.MsgSetMaxBurnAmountPerMessage{From: e.M.TC, LocalToken: "ueure", Amount: mkInt(big.NewInt(5))})
+			admin("limit-of-a-longer-name", &ct.MsgSetMaxBurnAmountPerMessage{From: e.M.TC, LocalToken: "uusdc2", Amount: mkInt(Max256)})
+			admin("remove-messenger", &ct.MsgRemoveRemoteTokenMessenger{From: e.M.Owner, DomainId: 2})
+			admin("add-messenger", &ct.MsgAddRemoteTokenMessenger{From: e.M.Owner, DomainId: 2, Address: Messenger(2, 1)})
+			admin("add-messenger-new-domain", &ct.MsgAddRemoteTokenMessenger{From: e.M.Owner, DomainId: 5, Address: Messenger(5, 0)})
+			admin("body-size", &ct.MsgUpdateMaxMessageBodySize{From: e.M.Owner, MessageSize: 4000})
+			admin("enable-attester", &ct.MsgEnableAttester{From: e.M.AM, Attester: AttesterPool[7].Spell(0)})
+			admin("disable-attester", &ct.MsgDisableAttester{From: e.M.AM, Attester: AttesterPool[7].Spell(0)})
+			e.Exec(Tx{Msgs: msgs1(&ct.MsgPauseBurningAndMinting{From: e.M.Pauser}), Note: "C08 maintenance: pause"})
+			e.Exec(Tx{Msgs: msgs1(&ct.MsgUnpauseBurningAndMinting{From: e.M.Pauser}), Note: "C08 maintenance: unpause"})
+			probe("unpause-burning")
+			admin("new-token-controller", &ct.MsgUpdateTokenController{From: e.M.Owner, NewTokenController: Acct(OtherIx)})
+			admin("new-pauser", &ct.MsgUpdatePauser{From: e.M.Owner, NewPauser: Acct(OtherIx)})
+			admin("same-limit-again", &ct.MsgSetMaxBurnAmountPerMessage{From: e.M.TC, LocalToken: "uusdc", Amount: mkInt(lim)})
+		}
+	}
 	// (3) max body size boundary
 	for bi, mb := range []*uint64{nil, u64p(0), u64p(131), u64p(132), u64p(133), u64p(8000), u64p(1<<31 - 1), u64p(1 << 31), u64p(1 << 32), u64p(1 << 40),
 		u64p(1<<63 - 1), u64p(1 << 63), u64p(1<<63 + 1), u64p(^uint64(0))} {
@@ -580,6 +639,9 @@ func init() {
 			}
 			if c.Matrix["C08_subsets"]["plain/none/ok"] == 0 || c.Matrix["C08_subsets"]["with-caller/none/ok"] == 0 {
 				miss = append(miss, "empty subset never succeeded")
+			}
+			if c.Matrix["C08_maintenance_steps"]["unlink-pair"] == 0 || len(c.Matrix["C08_maintenance_steps"]) < 15 {
+				miss = append(miss, fmt.Sprintf("limit-survives-maintenance steps: %d kinds", len(c.Matrix["C08_maintenance_steps"])))
 			}
 			if len(c.Matrix["C08_limit_triples"]) < 110 {
 				miss = append(miss, fmt.Sprintf("limit boundary cells: %d", len(c.Matrix["C08_limit_triples"])))
